@@ -312,6 +312,15 @@ REGRESSION_PROVER = [
     ('0RB 0LB  1LA 1RC  0RD 0RC  1RF 0LE  1LE 1LB  0LA ...', 3000),
 ]
 
+# Witnesses of finding F16 (a rule proved while walking away from a tape end writing zeros gets an empty, NON-exact
+# minimal signature on that side; applied later where that side is not empty it skips the zeros the machine writes):
+# (a) the machine halts, run_prover says spin-out; (b) the machine spins out, run_prover says halt; (a) mirrored.
+F16_WITNESSES = [
+    ('3RB ... ... ...  3RC ... ... ...  3RD ... ... ...  3LE ... ... ...  0RF 1LE ... 3LE  2RM 0RG ... 0RH  0LS 0RF ... ...  1RI 1RH ... 3RH  1RJ ... ... ...  1RK ... ... ...  1RL ... ... ...  1LE ... ... ...  1RN ... ... ...  1RO ... ... ...  1RP ... ... ...  1RQ ... ... ...  1LR ... ... ...  ... 1LR 2RF ...  0LT ... 2RV ...  0LU ... ... ...  0LS ... ... ...  0RV ... ... ...', 1000),
+    ('3RB ... ... ...  3RC ... ... ...  3RD ... ... ...  3LE ... ... ...  0RF 1LE ... 3LE  2RM 0RG ... 0RH  0LS 0RF ... ...  1RI 1RH ... 3RH  1RJ ... ... ...  1RK ... ... ...  1RL ... ... ...  1LE ... ... ...  1RN ... ... ...  1RO ... ... ...  1RP ... ... ...  1RQ ... ... ...  1LR ... ... ...  ... 1LR 2RF ...  0LT ... ... ...  0LU ... ... ...  0LS ... 2RV ...  0RV ... ... ...', 1000),
+    ('3LB ... ... ...  3LC ... ... ...  3LD ... ... ...  3RE ... ... ...  0LF 1RE ... 3RE  2LM 0LG ... 0LH  0RS 0LF ... ...  1LI 1LH ... 3LH  1LJ ... ... ...  1LK ... ... ...  1LL ... ... ...  1RE ... ... ...  1LN ... ... ...  1LO ... ... ...  1LP ... ... ...  1LQ ... ... ...  1RR ... ... ...  ... 1RR 2LF ...  0RT ... 2LV ...  0RU ... ... ...  0RS ... ... ...  0LV ... ... ...', 1000),
+]
+
 
 def doubler_machine(counter):
     """4-colour machine: `counter` states write a unary counter, then three states run  a' = 2a + 1  once per counter
